@@ -183,7 +183,7 @@ def run(ck: Check):
     OPK = ["read", "write", "notify", "pair", "unpair", "clearcache", "disconnect"]
     pool_all = [f"{k}:{a}:{h}" for k in ("read", "write", "notify", "error") for a in (A, B) for h in (1, 2)] + \
                [f"{k}:{a}:0" for k in ("conn0", "conn1", "pairing", "unpairing", "clearcache") for a in (A, B)] + \
-               [f"other:{A}:1"]
+               [f"other:{A}:1"] + [f"{k}:{a}:{h}" for k in ("error", "read", "write", "notify") for a in (A, B) for h in (0, 3)]   # foreign handles incl. 0
     scen = []
     # every pair of operations on the small space x permutations of a response pool of size 3
     opspace = [(k, a, h) for k in ("read", "write", "notify") for a in (A, B) for h in (1, 2)] + \
